@@ -485,6 +485,8 @@ namespace
             shapes.push_back({ 4, 2 });
             shapes.push_back({ 3, 4 });
             shapes.push_back({ 4, 4 });
+            shapes.push_back({ 2, 5 });
+            shapes.push_back({ 5, 3 });
         }
         std::vector<std::array<double, 2>> spacings = { { 1, 1 }, { 1, 2 } };
         if (th)
